@@ -9,6 +9,7 @@
   with the constants the translator reads from cli/yara.c on every run.
 -/
 import YaraModel.Lemmas.QueueProgress
+import YaraModel.Lemmas.CliOutput
 import YaraModel.Gen.Cli
 namespace YaraModel.Queue
 variable {α : Type}
@@ -180,3 +181,68 @@ theorem cli_queue_correct {n : Nat} {input : List α} {s : State α} (hn : 1 ≤
    by have := (queue_bounds cli_cfg_wf hr).2.2.2; omega⟩
 
 end YaraModel.Queue
+
+/-!
+  Part 2: the output mutex.  Model/CliOutput.lean: every thread prints a sequence of blocks
+  (lock output_mutex; one printf per chunk; unlock) and possibly chunks outside the mutex.
+-/
+namespace YaraModel.CliOut
+variable {χ : Type}
+
+/-- **Output printed under `output_mutex` is contiguous.**  If every print of every thread happens inside a
+    lock/unlock block, then in every reachable state (any interleaving, any number of threads, any programs)
+    the chunks of each block `k` of each thread `i` are adjacent in the output stream, in program order:
+    the lines of one file's match output are never interleaved with another thread's output. -/
+theorem output_atomic {progs : List (List (Item χ))} {s : St χ} (hn : NoLoose progs) (hr : Reachable progs s)
+    (i k : Nat) : Contig i k s.out :=
+  (inv_reachable hn hr).C i k
+
+/-- …and the mutex is held exactly by the thread that is inside a block. -/
+theorem output_mutex_exclusive {progs : List (List (Item χ))} {s : St χ} (hn : NoLoose progs) (hr : Reachable progs s)
+    (i j : Nat) (ti tj : Th χ) (hi : s.ths[i]? = some ti) (hj : s.ths[j]? = some tj)
+    (ii : ti.inside.isSome = true) (ij : tj.inside.isSome = true) : i = j := by
+  have h := inv_reachable hn hr
+  have a := (h.L i ti hi).1 ii
+  have b := (h.L j tj hj).1 ij
+  rw [a] at b; simpa using b
+
+example : NoLoose [[Item.block ["r ", "f1\n", "0x0:$a\n"]], [Item.block ["r ", "f2\n"], Item.block ["q ", "f2\n"]]] := by
+  intro p hp it hit
+  simp at hp
+  rcases hp with rfl | rfl <;> simp at hit
+  · exact ⟨_, hit⟩
+  · rcases hit with rfl | rfl <;> exact ⟨_, rfl⟩
+
+/-- **A print outside the mutex can tear a block** (the `console.log` callback of cli/yara.c prints without
+    taking `output_mutex`): with thread 0 printing one block of two chunks and thread 1 printing one chunk
+    outside the mutex there is a reachable state whose output has the loose chunk between the two chunks
+    of the block.  This is finding F17. -/
+theorem unlocked_print_can_tear (a1 a2 b : χ) :
+    ∃ s : St χ, Reachable [[Item.block [a1, a2]], [Item.loose b]] s ∧ ¬ Contig 0 0 s.out := by
+  refine ⟨_, .step (.print 0) (.step (.loose 1) (.step (.print 0) (.step (.lock 0) .init rfl) rfl) rfl) rfl, ?_⟩
+  rintro ⟨l1, seg, l2, ho, hseg, hl1, hl2⟩
+  simp only [init, List.map, List.nil_append, List.cons_append] at ho
+  have t0 : tagIs 0 0 (⟨0, some 0, a1⟩ : Entry χ) := ⟨rfl, rfl⟩
+  have t2 : tagIs 0 0 (⟨0, some 0, a2⟩ : Entry χ) := ⟨rfl, rfl⟩
+  have t1 : ¬ tagIs 0 0 (⟨1, none, b⟩ : Entry χ) := fun h => by cases h.2
+  cases l1 with
+  | cons e l1' =>
+    simp only [List.cons_append, List.cons.injEq] at ho
+    exact hl1 e (by simp) (ho.1 ▸ t0)
+  | nil =>
+    simp only [List.nil_append] at ho
+    cases seg with
+    | nil =>
+      simp only [List.nil_append] at ho
+      exact hl2 _ (by rw [← ho]; simp) t0
+    | cons e seg' =>
+      simp only [List.cons_append, List.cons.injEq] at ho
+      cases seg' with
+      | nil =>
+        simp only [List.nil_append] at ho
+        exact hl2 _ (by rw [← ho.2]; simp) t2
+      | cons e' seg'' =>
+        simp only [List.cons_append, List.cons.injEq] at ho
+        exact t1 (ho.2.1 ▸ hseg e' (by simp))
+
+end YaraModel.CliOut
